@@ -233,7 +233,12 @@ def fresh_session(chk: Check, repo: Repo) -> None:
     for attr, val in (("_sequence_number", 0), ("_sequence_number_received", -1)):
         ws_ = assigns(lambda a, attr=attr: any(ast.unparse(t) == f"self.{attr}" for t in (a.targets if isinstance(a, ast.Assign) else [a.target])))
         okc = len(ws_) == 1 and repo.fold(ws_[0].ast.value, con.module, con.cls) == val and cfg.dominates(ws_[0].id, req[0].id)
-        chk.ob("connect-resets-the-sequence-counters", con.site(ws_[0].ast if ws_ else None), okc, f"connect(): self.{attr} = {val} on every path before the SessionRequest", key=f"fresh|{attr}")
+        # ... and after the teardown of the old session: stop() wraps the old session's CLOSE, which has to carry the old
+        # session's next number - not 0 again, which its SessionAuthenticate used
+        stops = [n.id for n in cfg.nodes if n.ast is not None and n.kind == "stmt" and any(call_name(c) == "self.stop" for c in calls(n.ast))]
+        if okc and stops:
+            okc = all(cfg.dominates(s_, ws_[0].id) for s_ in stops)
+        chk.ob("connect-resets-the-sequence-counters", con.site(ws_[0].ast if ws_ else None), okc, f"connect(): self.{attr} = {val} on every path before the SessionRequest and after the old session was stopped", key=f"fresh|{attr}")
     for attr in ("_private_key", "public_key"):
         ws_ = [w for w in attr_writes(repo, attr, include_mutators=False) if w.func.cls is not None and w.func.cls.name == "SecureSession"]
         owners = sorted({w.func.name for w in ws_})
